@@ -99,6 +99,12 @@ def iff(a, b):
     return band(implies(a, b), implies(b, a))
 
 
+def sqrt(a):
+    if isinstance(a, SReal):
+        return a.sqrt()
+    return float(np.sqrt(np.float64(a)))
+
+
 def sabs(a):
     return abs(a)
 
